@@ -2,7 +2,8 @@
 
 A *spec* is plain data: {'nodes': [node...], 'vars': [var...]}, root = node 0.
   node = {'kind': 'module', 'cls': 'A'|'B'|'C', 'attrs': [(key, ref), ...]}
-       | {'kind': 'list'|'tuple'|'dict', 'attrs': [(key, ref), ...]}        (pytree containers: value semantics)
+       | {'kind': 'list'|'tuple'|'dict'|'namedtuple'|'odict', 'attrs': [(key, ref), ...]}   (pytree containers: value semantics;
+                                       namedtuple / OrderedDict keep their fields in generation order, which is not sorted)
   ref  = ('node', i) | ('var', j) | ('arr', seed, shape) | ('static', value) | ('none',)
   var  = {'type': name, 'seed': int, 'shape': tuple, 'meta': {..}}
 build(spec) constructs the real objects; building twice gives two independent isomorphic graphs."""
@@ -49,14 +50,18 @@ def value_of(seed, shape):
 # generation
 
 
-def gen_spec(rng, max_nodes=8, max_vars=6, p_alias=0.3, allow_cycles=True, allow_pytrees=True, allow_arrays=True, allow_static=True):
+NT_NAMES = ['w', 'b', 'z_last', 'a', 'k2', 'k1', 'x', 'B']   # valid namedtuple field names, deliberately not in sorted order
+
+
+def gen_spec(rng, max_nodes=8, max_vars=6, p_alias=0.3, allow_cycles=True, allow_pytrees=True, allow_arrays=True, allow_static=True,
+             generic_pytrees=False, numpy_values=False):
   n_nodes = rng.randint(1, max_nodes)
   n_vars = rng.randint(0 if n_nodes > 1 else 1, max_vars)
   nodes = [{'kind': 'module', 'cls': rng.choice('ABC'), 'attrs': []}]
   for i in range(1, n_nodes):
     kind = 'module'
     if allow_pytrees and rng.random() < 0.3:
-      kind = rng.choice(['list', 'tuple', 'dict'])
+      kind = rng.choice(['list', 'tuple', 'dict', 'namedtuple', 'odict'] if generic_pytrees else ['list', 'tuple', 'dict'])
     nodes.append({'kind': kind, 'cls': rng.choice('ABC') if kind == 'module' else None, 'attrs': []})
   vars_ = []
   for j in range(n_vars):
@@ -66,6 +71,8 @@ def gen_spec(rng, max_nodes=8, max_vars=6, p_alias=0.3, allow_cycles=True, allow
     if rng.random() < 0.2:
       meta['sharding'] = rng.choice([('x',), (None,), ('x', 'y')])
     vars_.append({'type': rng.choice(VAR_TYPES), 'seed': j + 1, 'shape': rng.choice([(), (2,), (2, 3)]), 'meta': meta})
+    if numpy_values and rng.random() < 0.25:
+      vars_[-1]['np'] = True   # the Variable holds a (mutable) numpy array instead of a jax array
 
   def add_attr(parent, ref):
     p = nodes[parent]
@@ -73,7 +80,7 @@ def gen_spec(rng, max_nodes=8, max_vars=6, p_alias=0.3, allow_cycles=True, allow
       p['attrs'].append((len(p['attrs']), ref))
     else:
       used = {k for k, _ in p['attrs']}
-      free = [k for k in ATTR_NAMES if k not in used]
+      free = [k for k in (NT_NAMES if p['kind'] == 'namedtuple' else ATTR_NAMES) if k not in used]
       if not free:
         return False
       p['attrs'].append((rng.choice(free), ref))
@@ -115,7 +122,7 @@ def gen_spec(rng, max_nodes=8, max_vars=6, p_alias=0.3, allow_cycles=True, allow
   for i in range(n_nodes):
     if nodes[i]['kind'] == 'module' or rng.random() < 0.5:
       if allow_arrays and rng.random() < 0.35:
-        add_attr(i, ('arr', 100 + i, rng.choice([(), (2,)])))
+        add_attr(i, ('arr', 100 + i, rng.choice([(), (2,)])) + (('np',) if numpy_values and rng.random() < 0.3 else ()))
       if allow_static and rng.random() < 0.35:
         add_attr(i, ('static', rng.choice([3, 'relu', (1, 2), 0.5, True])))
       if rng.random() < 0.15:
@@ -164,6 +171,16 @@ def has_pytree_cycle(spec):
 # construction of real objects
 
 
+_NT = {}
+
+
+def namedtuple_class(fields):
+  import collections
+  if fields not in _NT:
+    _NT[fields] = collections.namedtuple('NT_' + '_'.join(fields) if fields else 'NT_empty', fields)
+  return _NT[fields]
+
+
 class Built:
   def __init__(self, root, node_objs, var_objs, spec):
     self.root, self.node_objs, self.var_objs, self.spec = root, node_objs, var_objs, spec
@@ -173,7 +190,8 @@ def build(spec):
   import jax.numpy as jnp
   C = classes()
   nodes, vars_ = spec['nodes'], spec['vars']
-  var_objs = [C[v['type']](jnp.asarray(value_of(v['seed'], v['shape'])), **v['meta']) for v in vars_]
+  var_objs = [C[v['type']](value_of(v['seed'], v['shape']) if v.get('np') else jnp.asarray(value_of(v['seed'], v['shape'])), **v['meta'])
+              for v in vars_]
   node_objs = [None] * len(nodes)
   for i, n in enumerate(nodes):
     if n['kind'] == 'module':
@@ -186,7 +204,7 @@ def build(spec):
     if ref[0] == 'var':
       return var_objs[ref[1]]
     if ref[0] == 'arr':
-      return jnp.asarray(value_of(ref[1], ref[2]))
+      return value_of(ref[1], ref[2]) if ref[-1] == 'np' else jnp.asarray(value_of(ref[1], ref[2]))
     if ref[0] == 'static':
       return ref[1]
     return None
@@ -207,6 +225,11 @@ def build(spec):
       return [v for _, v in items]
     if n['kind'] == 'tuple':
       return tuple(v for _, v in items)
+    if n['kind'] == 'namedtuple':
+      return namedtuple_class(tuple(k for k, _ in items))(*[v for _, v in items])
+    if n['kind'] == 'odict':
+      import collections
+      return collections.OrderedDict(items)
     return {k: v for k, v in items}
 
   for i, n in enumerate(nodes):
@@ -239,6 +262,8 @@ def _children(x):
   """(key, child) pairs of a real node in sorted-key order; None if x is not a node."""
   if _is_graph_node(x):
     return sorted((k, v) for k, v in vars(x).items() if k != '_object__state')
+  if isinstance(x, tuple) and hasattr(x, '_fields'):
+    return sorted(zip(x._fields, x))   # NNX addresses namedtuple fields by name, in sorted order like every other node
   if isinstance(x, (list, tuple)):
     return list(enumerate(x))
   if isinstance(x, dict):
